@@ -8,6 +8,7 @@ GEN = {
     'C09': [('Gen_C09', 'props.t_C09')],
     'C10': [('Gen_C10', 'props.t_C10')],
     'C11': [('Gen_C11', 'props.t_C11')],
+    'C12': [('Gen_C12', 'props.t_C12')],
 }
 
 PROPS = sorted(GEN)
